@@ -77,6 +77,10 @@ func runC27(p *core.Prog, r *core.Report) {
 			r2.Check(oc.ProveLE(bo.Y, bo.X, 0), core.FuncName(ht)+"#quantity-1", p.InstrPos(in), "quantity > 0 holds at the decrement ("+oc.Facts()+")", "the quantity decrement is not dominated by quantity > 0: the unsigned counter can wrap and the task never ends")
 		}
 	}
+	// ---------------- R5 the listing position is never a cursor that was already consumed
+	r5 := r.Rule("C27.R5", "the policer's listing loop continues from the cursor the listing returned, from nil (wrap-around) or from a cursor created for that step: a cursor object created before the loop enters it only from outside (the listing advances the cursor it is given in place, so handing a kept one again jumps to wherever the listing has got to and the objects in between are never policed again)", 1)
+	policerCursorNeverReused(p, r, r5)
+	r.Explain += " (R5, a necessary condition of the first sentence) every cycle visits every stored object: in Policer.shardPolicyWorker the cursor passed to ListWithCursor is the one the previous call returned, nil after the end of the listing, or a cursor created on the spot; a cursor object created once before the loop never re-enters the loop variable from inside the loop (the engine's listing mutates the cursor it receives)."
 	// ---------------- R4 a detected deficit is never answered with a task for zero copies
 	r4 := r.Rule("C27.R4", "every replication task the policer issues asks for at least one copy (provable from the guards that led to it): a deficit answered with a zero-copy task is a fixed point of the policer", 3)
 	nTask := 0
@@ -158,5 +162,86 @@ func replicatorReportsOnlyAcceptedCopies(p *core.Prog, r *core.Report, r1 *core.
 			}
 			r1.Check(good, core.FuncName(ht)+"#reported-node", p.InstrPos(in), "the reported node is task.nodes[i] of the current iteration", "the node reported as successful is not the current iteration's node")
 		}
+	}
+}
+
+func policerCursorNeverReused(p *core.Prog, r *core.Report, h *core.RuleH) {
+	fn := p.Func("(*pkg/services/policer.Policer).shardPolicyWorker")
+	if fn == nil {
+		r.Fatalf("C27.R5: shardPolicyWorker not found")
+		return
+	}
+	var lists []ssa.CallInstruction
+	for _, b := range fn.Blocks {
+		for _, in := range b.Instrs {
+			if c, ok := in.(ssa.CallInstruction); ok && c.Common().IsInvoke() && c.Common().Method.Name() == "ListWithCursor" {
+				lists = append(lists, c)
+			}
+		}
+	}
+	if len(lists) == 0 {
+		r.Fatalf("C27.R5: the policer no longer lists through ListWithCursor")
+		return
+	}
+	isListed := func(v ssa.Value) bool {
+		ex, ok := v.(*ssa.Extract)
+		if !ok {
+			return false
+		}
+		c, ok := ex.Tuple.(ssa.CallInstruction)
+		return ok && c.Common().IsInvoke() && c.Common().Method.Name() == "ListWithCursor"
+	}
+	for _, lc := range lists {
+		var cur ssa.Value
+		for _, a := range lc.Common().Args {
+			if strings.HasSuffix(a.Type().String(), "engine.Cursor") {
+				cur = a
+			}
+		}
+		key := core.FuncName(fn) + "#listing-cursor"
+		if cur == nil {
+			h.Bad(key, p.InstrPos(lc), "no cursor argument found")
+			continue
+		}
+		bad := ""
+		seen := map[ssa.Value]bool{}
+		var walk func(v ssa.Value, from, at *ssa.BasicBlock)
+		walk = func(v ssa.Value, from, at *ssa.BasicBlock) {
+			if bad != "" {
+				return
+			}
+			switch x := v.(type) {
+			case *ssa.Phi:
+				if seen[x] {
+					return
+				}
+				seen[x] = true
+				for i, e := range x.Edges {
+					walk(e, x.Block().Preds[i], x.Block())
+				}
+			case *ssa.Const:
+				if !x.IsNil() {
+					bad = "a constant cursor"
+				}
+			default:
+				if isListed(v) {
+					return
+				}
+				in, isIn := v.(ssa.Instruction)
+				if !isIn {
+					bad = "a cursor that is not created in this function (" + v.Name() + ")"
+					return
+				}
+				// created here: fine if created inside the loop (fresh each time) or entering from outside the loop
+				if inCycle(in.Block()) {
+					return
+				}
+				if from != nil && at != nil && reaches(at, from) {
+					bad = "the cursor created once at " + p.InstrPos(in) + " is put back into the loop variable from inside the loop (through " + from.String() + ")"
+				}
+			}
+		}
+		walk(cur, nil, nil)
+		h.Check(bad == "", key, p.InstrPos(lc), "continues from the returned cursor, nil, or a fresh one", "the listing is continued with "+bad+": ListWithCursor advances the cursor it is given in place, so a kept cursor no longer points where it was created; the cycle jumps to the end of the listing and every object between the stop address and the end is never checked again (a lost replica there is never restored)")
 	}
 }
